@@ -10,6 +10,7 @@ import (
 	"grog/internal/console"
 	"grog/internal/logs"
 	"grog/internal/model"
+	"grog/internal/verifhook"
 	"io"
 	"os"
 	"os/exec"
@@ -129,6 +130,7 @@ func runTargetCommand(
 		cmd.Stderr = multiOut
 	}
 
+	verifhook.Event("cmd.attempt", target.Label.String())
 	if cmdErr := cmd.Run(); cmdErr != nil {
 		return buffer.Bytes(), cmdErr
 	}
